@@ -31,10 +31,15 @@ type c12Flavor struct {
 	SentBy   string `json:"sentby"`   // same | different | table-name | unknown-name | true-port
 	RPort    bool   `json:"rport"`
 	Backend  string `json:"backend"` // udp | tcp
+	Branch   string `json:"branch,omitempty"` // "" pairwise unrelated | prefix: every branch is a proper prefix of the next one
 }
 
 func (f c12Flavor) String() string {
-	return fmt.Sprintf("received=%s,sentby=%s,rport=%v,backend=%s", f.Received, f.SentBy, f.RPort, f.Backend)
+	s := fmt.Sprintf("received=%s,sentby=%s,rport=%v,backend=%s", f.Received, f.SentBy, f.RPort, f.Backend)
+	if f.Branch != "" {
+		s += ",branch=" + f.Branch
+	}
+	return s
 }
 
 type c12Case struct {
@@ -103,6 +108,10 @@ func c12Exec(fl c12Flavor, nconn int, hist []c12Ev) (string, string, string) {
 			}
 			x.sent = true
 			via := "SIP/2.0/TCP " + sentBy(ev.K) + fmt.Sprintf(";branch=z9hG4bKc%dt%d", ev.K, ev.T)
+			if fl.Branch == "prefix" {
+				// un-padded counters: z9hG4bK-t1, -t10, -t100, ...
+				via = "SIP/2.0/TCP " + sentBy(ev.K) + ";branch=z9hG4bK-t1" + strings.Repeat("0", ev.K*2+ev.T)
+			}
 			if fl.RPort {
 				via += ";rport"
 			}
@@ -219,9 +228,42 @@ func c12Run(c *Ctx) {
 		for _, sb := range []string{"same", "different", "table-name", "unknown-name", "true-port"} {
 			for _, rp := range []bool{true, false} {
 				for _, be := range []string{"udp", "tcp"} {
-					flavors = append(flavors, c12Flavor{rc, sb, rp, be})
+					flavors = append(flavors, c12Flavor{rc, sb, rp, be, ""})
 				}
 			}
+		}
+	}
+	for _, rc := range []string{"on", "off"} {
+		for _, sb := range []string{"same", "table-name"} {
+			for _, rp := range []bool{true, false} {
+				for _, be := range []string{"udp", "tcp"} {
+					flavors = append(flavors, c12Flavor{rc, sb, rp, be, "prefix"})
+				}
+			}
+		}
+	}
+	// a busy period: one transaction waits for its answer while another connection completes n
+	// transactions; then the delayed 180 and 200 arrive
+	busy := 100
+	if c.Thorough() {
+		busy = 1500
+	}
+	for fi, fl := range flavors {
+		if fl.Backend != "udp" || fl.Branch != "" || !c.Mine(int64(fi+7)) {
+			continue
+		}
+		h := []c12Ev{{"req", 0, 0, 0}}
+		for i := 0; i < busy; i++ {
+			h = append(h, c12Ev{"req", 1, 2 + i, 0}, c12Ev{"ans", 1, 2 + i, 200})
+		}
+		h = append(h, c12Ev{"ans", 0, 0, 180}, c12Ev{"ans", 0, 0, 200})
+		_, cl, detail := c12Exec(fl, 2, h)
+		c.Res.Executions++
+		c.Res.Evaluations++
+		c.Res.Nontrivial++
+		c.Res.Transitions += int64(len(h))
+		if cl != "" && cl != "invalid" {
+			c.Violate(cl+"|"+fl.String()+"|busy-period", cl, fmt.Sprintf("busy period of %d answered transactions on connection 1 while (c0,t0) waits: %s", busy, clip(detail, 1500)), c12Case{fl, 2, h})
 		}
 	}
 	var evs []c12Ev
@@ -278,7 +320,7 @@ func c12Run(c *Ctx) {
 
 func init() {
 	addCheck(&Check{ID: "C12", Level: "model_checking",
-		Rule:   "explicit-state BFS by replay (depth 6 with 2 client connections; thorough depth 7 with 3), all connections from 127.0.0.1 to one listener, two transactions per connection with pairwise distinct branches: events {connection k sends request t, backend answers (k,t) with 180, with 200, with a second 200} in every order, crossed with 40 flavours: received-support on/off x Via sent-by {same for all connections, different, host-table name, unknown name, equal to the true peer port} x rport requested or not x UDP or TCP backends; oracle: every provisional and the first final response is written on the connection that carried its request, on no other, and no connection is dialled; later finals are don't-cares; schedules: see the race tier; non-trivial = history longer than one event",
+		Rule:   "explicit-state BFS by replay (depth 6 with 2 client connections; thorough depth 7 with 3), all connections from 127.0.0.1 to one listener, two transactions per connection with pairwise distinct branches: events {connection k sends request t, backend answers (k,t) with 180, with 200, with a second 200} in every order, crossed with 40 flavours: received-support on/off x Via sent-by {same for all connections, different, host-table name, unknown name, equal to the true peer port} x rport requested or not x UDP or TCP backends, plus 16 flavours in which every branch is a proper prefix of the next (un-padded counters); plus, per UDP-backend flavour, a busy period: one transaction waits while another connection completes 100 (thorough 1500) transactions, then its 180 and 200 arrive; oracle: every provisional and the first final response is written on the connection that carried its request, on no other, and no connection is dialled; later finals are don't-cares; schedules: see the race tier; non-trivial = history longer than one event",
 		Assume: []string{"connections are interchangeable: histories start with connection 0 (symmetry reduction)"},
 		Run:    c12Run,
 		Finalize: func(c *Ctx, m *Result) {
